@@ -524,8 +524,8 @@ func RunReplay(entries map[string]func()) {
 // with symbolic leaves on one path; mode 1 also forks nil-ness/lengths at the top level.
 func SymValue[T any](name string, depth, mode int) T {
 	var out T
-	g := &symGen{mode: mode}
-	if mode == 1 {
+	g := &symGen{mode: mode & 1, json: mode&2 != 0}
+	if mode&1 == 1 {
 		g.pick = Choose(countTop(reflect.TypeOf(&out).Elem()) + 1)
 	}
 	g.gen(reflect.ValueOf(&out).Elem(), depth, true)
@@ -536,6 +536,7 @@ type symGen struct {
 	mode      int
 	anyRR     int
 	pick, pos int
+	json      bool
 }
 
 func countTop(t reflect.Type) int {
@@ -587,7 +588,7 @@ func (g *symGen) gen(v reflect.Value, depth int, top bool) {
 	case reflect.Float32, reflect.Float64:
 		v.SetFloat(float64(intVal(next("int"))))
 	case reflect.String:
-		v.SetString(Str("", "a", "b", "c"))
+		v.SetString(Str("", "", "a", "b"))
 	case reflect.Ptr:
 		if depth <= 0 {
 			return
@@ -671,15 +672,19 @@ func (g *symGen) gen(v reflect.Value, depth int, top bool) {
 		}
 		switch k {
 		case 0:
-			v.Set(reflect.ValueOf(Str("", "a", "b", "c")))
+			v.Set(reflect.ValueOf(Str("", "", "a", "b")))
 		case 1:
-			v.Set(reflect.ValueOf(intVal(next("int"))))
+			if g.json {
+				v.Set(reflect.ValueOf(float64(intVal(next("int")))))
+			} else {
+				v.Set(reflect.ValueOf(intVal(next("int"))))
+			}
 		case 2:
 			v.Set(reflect.ValueOf(Bool("")))
 		case 3:
-			v.Set(reflect.ValueOf([]any{Str("", "a", "b", "c")}))
+			v.Set(reflect.ValueOf([]any{Str("", "", "a", "b")}))
 		default:
-			v.Set(reflect.ValueOf(map[string]any{"k": Str("", "a", "b", "c")}))
+			v.Set(reflect.ValueOf(map[string]any{"k": Str("", "", "a", "b")}))
 		}
 	}
 }
@@ -750,4 +755,53 @@ func cloneRec(dst, src reflect.Value, seen map[uintptr]reflect.Value) {
 	default:
 		dst.Set(src)
 	}
+}
+
+// MapKeySetsDiffer: walking a and b in parallel, some pair of corresponding maps of
+// equal length has different key sets.
+func MapKeySetsDiffer(a, b any) bool {
+	return keySetsDiffer(reflect.ValueOf(a), reflect.ValueOf(b), 0)
+}
+
+func keySetsDiffer(a, b reflect.Value, depth int) bool {
+	if !a.IsValid() || !b.IsValid() || a.Type() != b.Type() || depth > 40 {
+		return false
+	}
+	switch a.Kind() {
+	case reflect.Interface, reflect.Ptr:
+		if a.IsNil() || b.IsNil() {
+			return false
+		}
+		return keySetsDiffer(a.Elem(), b.Elem(), depth+1)
+	case reflect.Struct:
+		for i := 0; i < a.NumField(); i++ {
+			if keySetsDiffer(a.Field(i), b.Field(i), depth+1) {
+				return true
+			}
+		}
+	case reflect.Slice, reflect.Array:
+		if a.Len() != b.Len() {
+			return false
+		}
+		for i := 0; i < a.Len(); i++ {
+			if keySetsDiffer(a.Index(i), b.Index(i), depth+1) {
+				return true
+			}
+		}
+	case reflect.Map:
+		if a.IsNil() || b.IsNil() || a.Len() != b.Len() {
+			return false
+		}
+		it := a.MapRange()
+		for it.Next() {
+			bv := b.MapIndex(it.Key())
+			if !bv.IsValid() {
+				return true
+			}
+			if keySetsDiffer(it.Value(), bv, depth+1) {
+				return true
+			}
+		}
+	}
+	return false
 }
